@@ -312,7 +312,11 @@ def c17_files(cs):
         body = ["def fx():", "    return 1"] + use_stmt
     elif bind == "global_decl":
         body = ["global fx"] + use_stmt
-    lines = head + [("async " if is_async else "") + "def test_t(a):"] + ["    " + l for l in body] + ["", ""]
+    sig = {"param": "a, fx", "param_default": "a, fx=3", "param_annotated": "a, fx: int", "param_posonly": "fx, /, a",
+           "param_kwonly": "a, *, fx", "param_kwonly_default": "a, *, fx=\"x\"", "param_vararg": "a, *fx", "param_kwarg": "a, **fx"}.get(bind, "a")
+    if bind in ("param", "param_default", "param_annotated", "param_posonly", "param_kwonly", "param_kwonly_default", "param_vararg", "param_kwarg"):
+        body = use_stmt
+    lines = head + [("async " if is_async else "") + "def test_t(%s):" % sig] + ["    " + l for l in body] + ["", ""]
     text = "\n".join(lines) + "\n"
     # position of the use: the occurrence of `fx` inside the use expression
     pos = None
